@@ -1233,7 +1233,9 @@ class Interp:
             return TOP
         if isinstance(recv, St):
             if name == "add":
-                if a0 is not None and recv_name:
+                if a0 is not None and recv.tag and not isinstance(recv.elem, _Top):
+                    self.site(fr, "K-VAL", node, recv.tag, fits(deconst(a0), recv.elem))
+                elif a0 is not None and recv_name:
                     env[recv_name] = St(join(recv.elem, deconst(a0)))
                 return NONE
             if name == "update":
